@@ -117,7 +117,7 @@ Types == [ bool |-> TBool, u8 |-> TInt(8, FALSE), i8 |-> TInt(8, TRUE), u16 |-> 
            struct_ab |-> SAb, struct_deny |-> SDeny, newtype_i32 |-> TNewtype(TInt(32, TRUE)), unit_enum |-> UnitE, enum_e |-> EnumE, vec_enum_e |-> TSeq(EnumE),
            untagged |-> TOpaque, internal |-> TOpaque, adjacent |-> TOpaque, flatten |-> TOpaque, borrow |-> TOpaque, f32 |-> TOpaque, struct_nested |-> TOpaque, bytes |-> TOpaque,
            ignored |-> TIgnored, vec_ignored |-> TSeq(TIgnored), map_string_ignored |-> TMap(TString, TIgnored),
-           vec_bytebuf |-> TOpaque, struct_bytes |-> TOpaque, tup_bytes |-> TOpaque, map_string_bytebuf |-> TOpaque ]
+           enum_z |-> TOpaque, vec_enum_z |-> TOpaque, map_f64_u8 |-> TOpaque, vec_bytebuf |-> TOpaque, struct_bytes |-> TOpaque, tup_bytes |-> TOpaque, map_string_bytebuf |-> TOpaque ]
 
 \* ---- Shapes ----
 Scalars == { VNull, VBool(TRUE), VNum(NatLit(0)), VNum(NatLit(1)), VNum(NatLit(255)), VNum(NatLit(256)), VNum(NegLit(1)), VNum(NegLit(129)),
